@@ -58,7 +58,8 @@ def block_cases(ctx, raw, slices, tag, nt=True, reser=True):
         head = f[:10]
         exp = [tx_digest(Transaction.from_raw(s.hex())) for s in slices]
         return ('s:echo ' + ' '.join(head[1:] + [str(len(exp))] + exp), ans)
-    yield Case(f'blk_parse {hx(raw)}', 'ms', nontrivial=nt, tag=tag, spec=spec)
+    # the translated Block.from_raw is interpreted: run it on blocks of moderate size (the theorem covers every size)
+    yield Case(f'blk_parse {hx(raw)}', 'gms' if len(raw) <= 60000 else 'ms', nontrivial=nt, tag=tag, spec=spec)
     if not reser: return          # a non-minimal push is re-serialised minimally: the slice itself is not reproduced (outside C15)
     # faithful to the raw block: every parsed transaction re-serialises to its own slice
     exp = hashlib.sha256(b''.join(slices)).hexdigest()
@@ -119,8 +120,8 @@ def cases(ctx):
         ctx.count('synthetic-block'); ctx.count('synthetic-block-txs', n)
         yield from block_cases(ctx, raw, slices, f'block-{n}', nt=n >= 2, reser=reser)
     # a block whose declared count exceeds what follows: the loop stops silently
-    yield Case(f'blk_parse {hx(MAGIC + (81).to_bytes(4, "little") + bytes(80) + cs(3))}', 'm', nontrivial=True, tag='block-short', domain=False)
-    yield Case(f'blk_parse {hx(MAGIC + bytes(50))}', 'm', nontrivial=True, tag='block-short', domain=False)
+    yield Case(f'blk_parse {hx(MAGIC + (81).to_bytes(4, "little") + bytes(80) + cs(3))}', 'gm', nontrivial=True, tag='block-short', domain=False)
+    yield Case(f'blk_parse {hx(MAGIC + bytes(50))}', 'gm', nontrivial=True, tag='block-short', domain=False)
     # fixtures
     for name in FX.FILES:
         b = FX.block(name)
